@@ -2363,3 +2363,20 @@ package goatlang
 //@   invariant#count count(*m) == cnt(elemsAt(intMapPair, arr(pairs)), off(pairs), off(pairs) + rangeidx)
 //@   invariant#view forall k int, x Value :: trig(k, x) ==> (holds(*m, k, x) <==> holdsIn(pairs, rangeidx, k, x))
 //@   invariant#keys forall k int :: trig(k) ==> (has(*m, k) <==> hasIn(pairs, rangeidx, k))
+//@
+//@ func (*intMap).Set
+//@   property C12 C17 C03
+//@   axioms POW2 COUNT
+//@   splitpaths
+//@   requires m != nil && wfIM(*m)
+//@   modifies fields(m) elems(m.pairs)
+//@   allocates elems(intMapPair)
+//@   nopanic
+//@   ensures#wf wfIM(*m)
+//@   ensures#stored trig(key, value) ==> holds(*m, key, value)
+//@   ensures#others forall k2 int, x Value :: trig(k2, x) && k2 != key ==> (holds(*m, k2, x) <==> old(holds(*m, k2, x)))
+//@   ensures#keys forall k2 int :: trig(k2) ==> (has(*m, k2) <==> (old(has(*m, k2)) || k2 == key))
+//@   ensures#total m.total == old(m.total) + ite(old(has(*m, key)), 0, 1)
+//@ func (*intMap).Set loop 0
+//@   invariant#probe forall p int :: 0 <= p && p < len(m.pairs) && m.pairs[p].distance != 0 && m.pairs[p].key == key ==> cyc(i & m.mask, key & m.mask, m.size) <= m.pairs[p].distance - 1
+//@   invariant#frame same(elemsAt(intMapPair, arr(m.pairs)), old(elemsAt(intMapPair, arr(m.pairs)))) && *m == old(*m) && hash == key
